@@ -20,3 +20,17 @@ Theorem C17_new_replicas_bounds : forall d, 0 < sumspec (d_olds d) ->
   x <= Z.max (r_spec (d_new d)) (limit d) /\ (r_spec (d_new d) < x -> x + sumspec (d_olds d) <= d_n d + max_surge d).
 Proof. exact new_replicas_bounds. Qed.
 Print Assumptions C17_new_replicas_bounds.
+
+(* the old ReplicaSets are never shrunk below what the partition reserves for them: after the sync they hold at least
+   min(what they held, replicas - max(partition limit, new ReplicaSet size)) pods -- including the runs in which Go's slice
+   aliasing makes the scale-down loop walk a slice that starts with the NEW ReplicaSet (it is then the new one that shrinks) *)
+Theorem C17_old_not_below_reserve : forall d, wf_state d = true -> p_old_not_below_reserve d (sync d) = true.
+Proof. exact old_not_below_reserve. Qed.
+Print Assumptions C17_old_not_below_reserve.
+
+(* available pods are never scaled down below replicas - maxUnavailable: the pods counted as available and kept by the
+   sync number at least min(replicas - maxUnavailable, what was available before).  maxUnavailable is non-negative (API
+   validation) *)
+Theorem C17_availability_budget : forall d, wf_state d = true -> 0 <= max_unavail d -> p_availability_budget d (sync d) = true.
+Proof. exact availability_budget. Qed.
+Print Assumptions C17_availability_budget.
